@@ -695,6 +695,19 @@ def escapes(ctx, mi, T):
            'in the %s group an alternative that can match nothing stands before one that begins with %s, and what follows the group can begin with %s as well: Python tries alternatives in '
            'order and keeps the first that lets the rest match, so in "Bb7" the root is read as B and b7 is left to the rest of the pattern (a flat seventh added to B), not as Bb with '
            'kind 7' % (gname_, '/'.join(sorted(sh_[0][0])), '/'.join(sorted(sh_[0][0]))), construct=cons_, definite=True)
+  # every pattern the readers try with `match` (no end anchor of its own) takes the longest degree number: "(b13)" is a 13th, not a 1
+  for pname_ in ('_MODIFICATION_PATTERN', '_CHORD_SYMBOL_PATTERN', '_SCALE_DEGREE_PATTERN', '_PITCH_CLASS_PATTERN'):
+    try:
+      ptxt_ = T[pname_] if pname_ in T else fd.module_const(mi, pname_)
+    except Exception:      # pylint: disable=broad-except
+      continue
+    if not isinstance(ptxt_, str):
+      continue
+    sh_ = rx.prefix_shadowed(rx.parse(ptxt_))
+    ctx.ob('RX/longest-alternative-first', mi, mi.assigns[pname_][0], not sh_, 'no alternative of %s is cut short by an earlier one' % pname_ if not sh_ else
+           'in %s an alternative that matches %r stands before one that matches %r, nothing after it has to match, and the pattern is not anchored at its end: `match` takes the shorter '
+           'one, so a modification such as (b%s) / (#%s) is read as degree %s and the rest of the text is left over (the reader then fails on it)' % (
+               pname_, sh_[0][0], sh_[0][1], sh_[0][1], sh_[0][1], sh_[0][0]) if sh_ else '', construct='%s: longest alternative first' % pname_, definite=True)
   ok = set(T['_DEGREE_OFFSETS']) == set(range(1, 8))
   ctx.ob('KEYERR/degree-offsets', mi, mi.assigns['_DEGREE_OFFSETS'][0], ok, 'normalised degrees 1..7 are exactly the keys of _DEGREE_OFFSETS' if ok else '_DEGREE_OFFSETS keys are %s' % sorted(T['_DEGREE_OFFSETS']), construct='_DEGREE_OFFSETS keys = 1..7')
 
